@@ -47,12 +47,13 @@ func genRepCfg(t *rapid.T, label string) repCfg {
 }
 
 type c03Case struct {
-	Profile     m.Profile `json:"profile"`
-	Graph       *m.Graph  `json:"graph"`
-	CfgA        repCfg    `json:"cfg_a"`
-	CfgB        repCfg    `json:"cfg_b"`
-	ProfileText string    `json:"profile_text"`
-	DataText    string    `json:"data_text"`
+	Listed      map[string][]string `json:"also_listed,omitempty"` // level -> validations defined elsewhere and listed here too
+	Profile     m.Profile           `json:"profile"`
+	Graph       *m.Graph            `json:"graph"`
+	CfgA        repCfg              `json:"cfg_a"`
+	CfgB        repCfg              `json:"cfg_b"`
+	ProfileText string              `json:"profile_text"`
+	DataText    string              `json:"data_text"`
 }
 
 func genC03(t *rapid.T) c03Case {
@@ -79,6 +80,17 @@ func genC03(t *rapid.T) c03Case {
 		}
 		if rapid.IntRange(0, 3).Draw(t, "emptyLevel") == 0 {
 			c.Profile.EmptyLevels = append(c.Profile.EmptyLevels, l)
+		}
+	}
+	// a defined validation may also be listed under a second level: it is then reported with both severities
+	c.Listed = map[string][]string{}
+	for _, v := range c.Profile.Validations {
+		if v.Level != "" && rapid.IntRange(0, 5).Draw(t, "secondLevel") == 0 {
+			other := pick(t, levels[:3], "otherLevel")
+			if other != v.Level {
+				c.Profile.Undefined[other] = append(c.Profile.Undefined[other], v.Name)
+				c.Listed[other] = append(c.Listed[other], v.Name)
+			}
 		}
 	}
 	// names listed but not defined may stand anywhere in a level list
@@ -163,6 +175,20 @@ func decideC03(c c03Case) ev.Verdict {
 		for _, id := range ids {
 			want = append(want, strings.Title(v.Level)+"|"+v.Name+"|"+id)
 			perLevel[v.Level]++
+		}
+	}
+	for lvl, names := range c.Listed {
+		for _, name := range names {
+			for _, v := range c.Profile.Validations {
+				if v.Name != name {
+					continue
+				}
+				ids, _ := expectedFailing(v.Body, c.Graph, classTest)
+				for _, id := range ids {
+					want = append(want, strings.Title(lvl)+"|"+v.Name+"|"+id)
+					perLevel[lvl]++
+				}
+			}
 		}
 	}
 	sort.Strings(want)
